@@ -162,3 +162,102 @@ class FileIterRange(Contract):
 
 
 CONTRACTS = [GetFirstRange(), FileIterRange()]
+
+
+# ------------------------------------------------------------------------------------------- parse_date
+from pyvc.engine import Val as _Val, VTuple as _VTuple, VOpaque as _VOpaque, VPy as _VPy   # noqa: E402
+
+Civil = z3.DeclareSort('Civil')     # the broken-down time fields (year .. second [, wday, yday, isdst]) of a parsed date
+
+
+class _TS(_Val):
+    """result of email.utils.parsedate_tz: a 10-tuple (civil time fields, zone offset in seconds or None)"""
+    def __init__(self, civil, offset):
+        self.civil, self.offset = civil, offset
+
+    def pyslice(self, X, lo, hi):
+        if lo is None and hi is not None and z3.is_int_value(z3.simplify(hi.t)) and z3.simplify(hi.t).as_long() == 8:
+            return _Fields(self.civil, 8)
+        raise Unsupported('slice of the parsed date other than [:8]')
+
+    def getitem(self, X, key):
+        k = z3.simplify(key.t)
+        if z3.is_int_value(k) and k.as_long() == 9:
+            return self.offset
+        raise Unsupported('index into the parsed date other than [9]')
+
+
+class _Fields(_Val):
+    def __init__(self, civil, n, dst=None):
+        self.civil, self.n, self.dst = civil, n, dst
+
+
+class ParseDate(Contract):
+    """parse_date: the UTC epoch of an HTTP date INCLUDING its zone: utc(civil fields) - zone offset; None when the text is not a
+    date (or out of range).  utc() is uninterpreted; time.mktime of the fields with tm_isdst=0 is local standard time:
+    mktime(fields, isdst=0) - time.timezone == utc(fields)  (libc semantics, assumed)."""
+    props = ('C17',)
+    file = 'ombott/common_helpers.py'
+    qualname = 'parse_date'
+    assumptions = ('email.utils.parsedate_tz returns None or a 10-tuple whose last item is the zone offset in seconds east of UTC or None (library)',
+                   'time.mktime(t) with tm_isdst == 0 equals utc(t) + time.timezone; it may raise OverflowError / ValueError')
+    expected_labels = ('post.epoch_accounts_for_the_zone_offset', 'post.none_only_for_unparseable_or_out_of_range')
+
+    def pre(self, X):
+        self.civil = X.fresh(Civil, 'civil')
+        self.tz = X.fresh(z3.IntSort(), 'time_timezone')
+        self.utc = X.driver.uf('utc_epoch', Civil, z3.IntSort())
+        self.kind = X.choose(3, 'parsedate_tz: None | zone given | zone None')
+        self.off = X.fresh(z3.IntSort(), 'zone_offset')
+        self.mk_failed = False
+        c = self
+
+        def parsedate_tz(X, args, kwargs):
+            if c.kind == 0:
+                return NONE
+            return _TS(c.civil, VInt(c.off) if c.kind == 1 else NONE)
+
+        def mktime(X, args, kwargs):
+            a = args[0]
+            if X.choose(2, 'mktime: ok | out of range') == 1:
+                c.mk_failed = True
+                X.raise_(OverflowError, 'mktime')
+            if isinstance(a, _Fields) and a.n == 9 and a.dst == 0:
+                return VInt(c.utc(a.civil) + c.tz)
+            raise Unsupported('mktime of something else than the first 8 fields + (0,)')
+
+        def timegm(X, args, kwargs):
+            a = args[0]
+            if isinstance(a, _TS):
+                return VInt(c.utc(a.civil))
+            if isinstance(a, _Fields):
+                return VInt(c.utc(a.civil))
+            raise Unsupported('timegm of something else')
+        self.stubs = {'email.utils.parsedate_tz': parsedate_tz, 'time.mktime': mktime, 'calendar.timegm': timegm}
+        return {'ims': X.fresh_str('ims')}
+
+    def binop_hook(self, X, op, a, b):
+        import ast as _ast
+        if isinstance(op, _ast.Add) and isinstance(a, _Fields) and isinstance(b, _VTuple) and len(b.items) == 1 \
+                and isinstance(b.items[0], VInt) and z3.is_int_value(z3.simplify(b.items[0].t)):
+            return _Fields(a.civil, a.n + 1, z3.simplify(b.items[0].t).as_long())
+        return None
+
+    def getattr_hook(self, X, obj, attr):
+        if isinstance(obj, _VPy) and getattr(obj, 'name', '') == 'time' and attr == 'timezone':
+            return VInt(self.tz)
+        return None
+
+    def post(self, X, ret):
+        if isinstance(ret, VNone):
+            X.prove('post.none_only_for_unparseable_or_out_of_range', z3.BoolVal(self.kind == 0 or self.mk_failed))
+            return
+        off = self.off if self.kind == 1 else z3.IntVal(0)
+        X.prove('post.epoch_accounts_for_the_zone_offset',
+                z3.And(z3.BoolVal(self.kind != 0), ret.t == self.utc(self.civil) - off) if isinstance(ret, VInt) else z3.BoolVal(False))
+
+    def post_raise(self, X, exc):
+        X.prove('raises.nothing', z3.BoolVal(False))
+
+
+CONTRACTS.append(ParseDate())
